@@ -106,13 +106,13 @@ Qed.
 Example C08_cq_nonvacuous :
   wf W1 /\
   (exists s, path (exec W1) [2; 2; 2; 2; 2; 2; 2; 2; 2; 2; 4] s /\ cn s = 50) /\
-  (Ex (fmap (rank_of 30 true) (exec W1)) == inject_Z 32)%Q.
+  (Ex (fmap (rank_of 30 true) (exec W1)) == inject_Z 31)%Q.
 Proof.
   split; [exact W1_wf|]. split.
-  - destruct witness1_values as (ar & s & H & E & _ & A & _). exists s. split; [|exact A].
-    rewrite <- E. exact (replay_ar_path (exec W1) (repeat 0 11) ar s H).
+  - destruct witness1_values as (ar & s & H & P & E & _ & A & _). exists s. split; [|exact A].
+    rewrite <- E. exact P.
   - rewrite (rank_unbiased 30 true W1 W1_wf).
-    match goal with |- (inject_Z ?X == _)%Q => assert (E : X = 32) by (vm_compute; reflexivity); rewrite E end.
+    match goal with |- (inject_Z ?X == _)%Q => assert (E : X = 31) by (vm_compute; reflexivity); rewrite E end.
     reflexivity.
 Qed.
 
